@@ -2153,8 +2153,20 @@ class _LoopMixin:
         may_exit_early = bool(brk) or bool(new_dead)
         n = L.trip if not may_exit_early else Sym("n%d" % L.lid, "trip", L)
         L.iterations = n
+        # a loop that is always left in its first iteration (unconditional break / return at the end of the body) runs at
+        # most once: the values after it are those of that single iteration, or the initial ones when it did not run at all
+        single = kind == "for" and any(b == TRUE for b in L.stops) and any(b == TRUE for b in brk)
+        if single:
+            L.iterations = n = Sym("n%d" % L.lid, "trip", L)
+            once = Op("exists", Const(L.lid), TRUE)
+            first = {L.idx: Const(0)}
+            for w in locs:
+                first[lv[w]] = init[w]
+            finals = {w: self.loc_get(w) for w in locs}
         for w in locs:
-            if w in closed and closed[w] == Const(0):
+            if single:
+                val = ite(once, subst(finals[w], first), init[w])
+            elif w in closed and closed[w] == Const(0):
                 val = init[w]
             elif w in closed:
                 val = add(init[w], mul(n, closed[w]))
